@@ -93,6 +93,7 @@ package interp
 //@   opt safety = off
 //@   opt opaque-calls = *
 //@   opt opaque-havoc = none
+//@   opt ignore-contracts = nodeType
 //@   loop 2
 //@   step constant-result-representable: err == nil && old(c.typ != nil && c.typ.untyped && c.typ.cat != nilT && isC(c.rval)) && typ != nil && !typ.untyped && !isInterface(typ) && basicTarget(typ) ==> representableConst(old(cOf(c.rval)), typ.TypeOf())
 
